@@ -194,7 +194,8 @@ template<typename K> struct TupleExec {
           MTuple w; w.empty = i_empty; w.theta = i_theta; w.e = i_map; compare(observe(in->get_result(true)), w, "intersection"); ctx.nontrivial = true; break; }
         case T_INTER_GET: { if (!i_valid) { bool t = false; try { in->get_result(); } catch (const std::invalid_argument&) { t = true; } ctx.require(t, fp("intersection|get_result-before-update-not-refused").c_str(), ""); ctx.fault("refused_op"); }
           else { MTuple w; w.empty = i_empty; w.theta = i_theta; w.e = i_map; compare(observe(in->get_result((s.b & 1) != 0)), w, "intersection"); ctx.fault("interleaved_read"); } break; }
-        case T_NEW_OPS: un.reset(new typename K::UN(K::build_union(lg_u, seed, nv))); in.reset(new typename K::IN(K::build_inter(seed, nv))); u_theta = MAXT; u_map.clear(); u_empty = true; i_valid = false; i_empty = false; i_theta = MAXT; i_map.clear(); break;
+        case T_NEW_OPS: if (s.c & 3) { un->reset(); ctx.probe("union_reset_and_reused"); }   // the union object itself is reset and used again (three times out of four), else replaced by a fresh one
+          else un.reset(new typename K::UN(K::build_union(lg_u, seed, nv))); in.reset(new typename K::IN(K::build_inter(seed, nv))); u_theta = MAXT; u_map.clear(); u_empty = true; i_valid = false; i_empty = false; i_theta = MAXT; i_map.clear(); break;
         case T_ANOTB: { Node& b = nodes[static_cast<size_t>(s.b) % nodes.size()]; MTuple xa = observe(*n.sk), xb = observe(*b.sk); MTuple w;
           if (xa.empty || (!xa.e.empty() && xb.empty)) w = xa; else { w.theta = std::min(xa.theta, xb.theta); w.empty = false; for (auto& kv : xa.e) if (kv.first < w.theta && !xb.e.count(kv.first)) w.e[kv.first] = kv.second; if (w.e.empty() && w.theta == MAXT) w.empty = true; }
           std::unique_ptr<C> res;
@@ -263,7 +264,7 @@ struct C13World: World {
       if (roll < 20) s.kind = T_UPD; else if (roll < 45) { s.kind = T_BATCH; s.b = static_cast<i64>(rp.below(400)); static const i64 cnt[] = { 3, 10, 40, 100, 300, 900 }; s.c = std::min<i64>(rp.pick(cnt), tier ? 900 : 300); }
       else if (roll < 48) s.kind = T_RESET; else if (roll < 52) s.kind = T_TRIM; else if (roll < 57) s.kind = T_COMPACT;
       else if (roll < 68) s.kind = T_UNION_ADD; else if (roll < 73) s.kind = T_UNION_GET; else if (roll < 81) s.kind = T_INTER_ADD; else if (roll < 84) s.kind = T_INTER_GET;
-      else if (roll < 90) s.kind = T_ANOTB; else if (roll < 94) s.kind = T_FILTER; else if (roll < 96) s.kind = T_COPY; else if (roll < 99) s.kind = T_FROM_THETA; else s.kind = T_NEW_OPS;
+      else if (roll < 90) s.kind = T_ANOTB; else if (roll < 94) s.kind = T_FILTER; else if (roll < 96) s.kind = T_COPY; else if (roll < 98) s.kind = T_FROM_THETA; else s.kind = T_NEW_OPS;
       p.steps.push_back(s);
     }
     return p;
